@@ -274,6 +274,10 @@ class Engine(EngineBase):
     def _data_files(self, pp):
         out = []
         for name, rj in raw_project(pp).items():
+            if not rj["files"] and rj["doc"][0] == "absent":
+                # a directory that holds no document and no data file has nothing repair() could change
+                # (a misnamed directory may legitimately be renamed onto such an empty one)
+                continue
             out.append(tuple(sorted((r, e) for r, e in rj["files"].items()))
                        + (("__doc__", rj["doc"][0], json.dumps(rj["doc"][1], sort_keys=True)
                            if rj["doc"][0] == "ok" else None),))
